@@ -38,6 +38,9 @@ Vec4 == {<<p, q, r, w>> : <<p, q, r>> \in Vec3, w \in {<<T(1, E7(0,0,1,2))>>, <<
 Cases3 == {Case("div", F, gs, <<>>) : F \in Vec4, gs \in {<<"x", "t", "k">>, <<"t", "k", "x">>, <<"k", "x", "t">>, <<"t", "x", "k">>}}
           \cup {Case("jac", F, gs, <<>>) : F \in Vec2, gs \in {<<"x", "t", "k">>, <<"k", "t", "x">>}}
           \cup {Case(op, F, <<"x">>, V) : op \in {"conv_grad", "conv_lap"}, F \in Vec2, V \in Vec2}            \* the field convected by itself, too
+          \* symmetric gradients of three- and four-component fields (as many derivative coordinates as components)
+          \cup {Case("sym_grad2", F, gs, <<>>) : F \in Vec3, gs \in {<<"x", "t">>, <<"t", "x">>}}
+          \cup {Case("sym_grad2", F, gs, <<>>) : F \in Vec4, gs \in {<<"x", "t", "k">>, <<"k", "t", "x">>}}
           \cup {Case("jac", F, gs, <<>>) : F \in Vec4, gs \in {<<"x">>, <<"x", "t", "k">>, <<"t">>}}          \* four components
           \cup {Case("matrix_div", F \o G, gs, <<>>) : F \in Vec4, G \in {<<p, q, r, w>> \in Vec4 : p # <<T(1, E7(2,0,1,0))>>}, gs \in {<<"x", "t", "k">>, <<"k", "t", "x">>}}
 ASSUME ndJsonSerialize(IOEnv.OUT_FILE, SetToSeq(Cases \cup Cases3)) /\ PrintT(<<"SCENARIOS", Cardinality(Cases \cup Cases3)>>)
